@@ -7,6 +7,7 @@ CONSTANTS
   MaxCalls <- MC_MaxCalls
   Worlds <- MC_Worlds
   Problems <- MC_Problems
+  Region <- MC_Region
   RestoreRng <- MC_RestoreRng
 SPECIFICATION Spec
 VIEW view
@@ -18,6 +19,7 @@ INVARIANTS
   C02_Endpoints
   C03_EdgesCovered
   C03_PathCovered
+  C04_InRegion
   C05_Radius
   C06_OkImpliesReachable
   C06_BuildBudget
